@@ -20,7 +20,7 @@ ASSUMPTIONS = [
     "with -p the planted assignment is not observable from outside: the check asks for the number of available clauses of *one* planted assignment (which does not depend on the assignment) and for a satisfiable output",
     "cli_planted_scale: the assignment planted by -p is read where cnfgen.clihelpers.simple_helpers hands it to RandomKCNF / RandomKXOR (a pass-through wrapper around the two names bound in that module; the arguments are forwarded unchanged); '-p plants a random satisfying assignment' is read as: exactly one total assignment of the variables 1..n",
     "beyond 12 variables no truth table is built: planted assignments are evaluated clause by clause, and the number of compatible clauses / parities is counted per class of variables on which the planted assignments agree (vlib/randref, compared with the brute-force count up to 7 variables on every call)",
-    "exact boundary and wide clauses (planted_iterable, cases marked 'exact'): the maximum is computed in closed form with Python integers for at most two distinct planted assignments; requests at the maximum are generated only when the maximum is at most 4500 (thorough 20000), because the tree enumerates every clause there; beyond that only a handful of clauses is requested; k-XOR with more than 11 variables per parity is requested only with m = 0 (its encoding has 2^(k-1) clauses per parity)",
+    "exact boundary and wide clauses (planted_iterable, cases marked 'exact'): the maximum is computed in closed form with Python integers for at most two distinct planted assignments; requests at the maximum are generated only when the maximum is at most 4500 clauses / 1500 parities (thorough 20000), because the tree enumerates every clause there; beyond that only a handful of clauses is requested; k-XOR with more than 11 variables per parity is requested only with m = 0 (its encoding has 2^(k-1) clauses per parity)",
     "uniformity of the distribution is not tested",
     "formula_class is left at its default (CNF); the OPB rendering is C08's subject",
     "determinism under seed= / --seed is asserted only for equal arguments in the same process; --seed 0 is exercised for shape only (its being ignored is C07's finding 9)",
@@ -457,8 +457,8 @@ def strat_planted_iterable(draw):
 #   clauses:  2^k C(n,k)  |  (2^k - 1) C(n,k)  |  (2^k - 2) C(n,k) + C(#agree, k)
 #   parities: 2 C(n,k)    |  C(n,k)            |  sum over even j of C(d,j) C(n-d,k-j),  d = #differ
 
-EXACT_CAP = {'quick': 4500, 'thorough': 20000}
-XOR_ENCODING_CAP = 30000          # clauses in the encoding of the parities
+EXACT_CAP = {('cnf', 'quick'): 4500, ('xor', 'quick'): 1500, ('cnf', 'thorough'): 20000, ('xor', 'thorough'): 20000}
+XOR_ENCODING_CAP = {'quick': 10000, 'thorough': 30000}          # clauses in the encoding of the parities
 EXACT_NS = list(range(11, 31)) + [64, 100, 1000, 1200]
 FLOAT_TOP = 1 << 1024             # beyond the range of a float
 
@@ -535,10 +535,10 @@ def run_iterable_or_exact(case):
 _EXACT_PAIRS = {}
 
 
-def exact_pairs(kind, cap):
+def exact_pairs(kind, cap, enc_cap=XOR_ENCODING_CAP['thorough']):
     """Every (n, k), n in EXACT_NS, k in 0..n, whose unplanted maximum can be requested: at most `cap`
     clauses / parities (and a bounded encoding of the parities)."""
-    key = (kind, cap)
+    key = (kind, cap, enc_cap)
     if key not in _EXACT_PAIRS:
         out = []
         for n in EXACT_NS:
@@ -546,7 +546,7 @@ def exact_pairs(kind, cap):
                 total = exact_max(kind, k, n, ())
                 if total > cap:
                     continue
-                if kind == 'xor' and total * (1 << max(k - 1, 0)) > XOR_ENCODING_CAP:
+                if kind == 'xor' and total * (1 << max(k - 1, 0)) > enc_cap:
                     continue
                 out.append((n, k))
         _EXACT_PAIRS[key] = out
@@ -562,9 +562,25 @@ def _exact_planted(cfg, n, rng):
     return [rr.bits_assignment(n, x) for x in sets]
 
 
-def _exact_case(kind, k, n, cfg, mode, family, seed):
+def _wide_ok(kind, k, n, cfg):
+    """A wide request is generated only when the tree cannot be driven into listing every clause / parity: it
+    lists them all when 10*m draws do not give m compatible ones, which has a noticeable probability for a tiny m
+    as soon as a fair share of the draws is incompatible with the planted assignments (every other parity for one
+    assignment; every parity of odd width for a complementary pair).  Clauses of width >= 20 are compatible except
+    with probability 2^-19; parities are requested with planted assignments only where the listing is cheap."""
+    p = {'none': 0, 'one': 1, 'all-true': 1}.get(cfg, 2)
+    if p == 0:
+        return True
+    if kind == 'cnf':
+        return k >= 20
+    return _total(kind, k, n) * p * max(k, 1) * n <= DENSE_CAP
+
+
+def _exact_case(kind, k, n, cfg, mode, family, seed, pseed=None):
     rng = random.Random(seed)
-    planted = _exact_planted(cfg, n, rng)
+    if family == 'wide' and mode != 0 and not _wide_ok(kind, k, n, cfg):
+        cfg = 'none'
+    planted = _exact_planted(cfg, n, rng if pseed is None else random.Random(pseed))
     pbits = tuple(rr.assignment_bits(n, a) for a in planted)
     mx = exact_max(kind, k, n, pbits)
     if isinstance(mode, int):
@@ -587,17 +603,20 @@ WIDE_MS = [0, 1, 2, 5]
 
 
 def enum_exact(tier):
-    cap = EXACT_CAP[tier]
     j = 0
     for kind in KINDS:
-        for n, k in exact_pairs(kind, cap):
+        for n, k in exact_pairs(kind, EXACT_CAP[kind, tier], XOR_ENCODING_CAP[tier]):
             j += 1
-            cfgs = [('none', ['max-1', 'max', 'max+1', 'zero']), ('one', ['max', 'max+1'])]
             if tier != 'quick':
-                cfgs += [('two', ['max-1', 'max', 'max+1']), ('complementary', ['max', 'max+1']),
-                         ('one-flip', ['max', 'max+1']), ('one', ['max-1', 'zero'])]
-            elif j % 3 == 0:
-                cfgs.append((['two', 'complementary', 'one-flip', 'equal'][(j // 3) % 4], ['max', 'max+1']))
+                cfgs = [('none', ['max-1', 'max', 'max+1', 'zero']), ('one', ['max-1', 'max', 'max+1', 'zero']),
+                        ('two', ['max-1', 'max', 'max+1']), ('complementary', ['max', 'max+1']),
+                        ('one-flip', ['max', 'max+1'])]
+            else:
+                # both sides of the boundary without planted assignments on every pair; the rest in turns
+                cfgs = [('none', ['max', 'max+1'] + [['max-1'], ['zero'], ['max-1'], []][j % 4]),
+                        ('one', [['max'], ['max+1']][j % 2])]
+                if j % 3 == 0:
+                    cfgs.append((['two', 'complementary', 'one-flip', 'equal'][(j // 3) % 4], [['max+1'], ['max']][j % 2]))
             for cfg, modes in cfgs:
                 for mode in modes:
                     seed = zlib.crc32("E{}:{}:{}:{}:{}".format(kind, n, k, cfg, mode).encode())
@@ -607,9 +626,13 @@ def enum_exact(tier):
         for n, k in points:
             for cfg in ('none', 'one', 'two', 'complementary'):
                 for m in WIDE_MS:
+                    if m and not _wide_ok(kind, k, n, cfg):
+                        continue
                     for r in range(reps):
                         seed = zlib.crc32("W{}:{}:{}:{}:{}:{}".format(kind, n, k, cfg, m, r).encode())
-                        yield _exact_case(kind, k, n, cfg, m, 'wide', seed)
+                        # the same planted set for every m
+                        pseed = zlib.crc32("P{}:{}:{}:{}:{}".format(kind, n, k, cfg, r).encode())
+                        yield _exact_case(kind, k, n, cfg, m, 'wide', seed, pseed)
     # wide parities cannot be encoded (2^(k-1) clauses each): only the empty request
     for n, k in WIDE_POINTS:
         for cfg in ('none', 'one'):
@@ -1114,7 +1137,7 @@ SUBCHECKS = [
     SubCheck('planted_iterable', run_iterable_or_exact, strategy=strat_iterable_or_exact, enumerate_cases=enum_exact,
              quick=700, thorough=23000, max_shards=4,
              rule="(a) planted_assignments passed as a one-shot iterator / generator of lists (the docstring says 'iterable(lists)'); n 1..7, k 1..4, 1..3 assignments; same oracle as grid; non-trivial: m>=1. "
-                  "(b) the exact boundary at sizes where floating point would round: RandomKCNF and RandomKXOR for every (n, k) with n in 11..30 or n in {64, 100, 1000, 1200}, k in 0..n, whose maximum 2^k*C(n,k) (2*C(n,k) parities, encoding <= 30000 clauses) is at most 4500 (thorough 20000), without planted assignments at m = max-1, max, max+1 and 0, with one planted total assignment at max and max+1, on every third pair (thorough: every pair) with two (random, complementary, differing in one variable, equal) at max and max+1 (thorough also max-1); planted sets passed as list, tuple or one-shot iterator. "
+                  "(b) the exact boundary at sizes where floating point would round: RandomKCNF and RandomKXOR for every (n, k) with n in 11..30 or n in {64, 100, 1000, 1200}, k in 0..n, whose maximum 2^k*C(n,k) is at most 4500 (2*C(n,k) parities: at most 1500 with an encoding of at most 10000 clauses; thorough: 20000 resp. 30000): without planted assignments at m = max and max+1 on every pair and at max-1 or 0 on three pairs out of four, with one planted total assignment at max or max+1 in turns, on every third pair with two (random, complementary, differing in one variable, equal) at max or max+1 (thorough: every pair with none / one at max-1, max, max+1, 0 and two random / complementary / differing in one variable at max, max+1); planted sets passed as list, tuple or one-shot iterator. "
                   "(c) widths where 2^k, C(n,k) or their product exceed 2^53 or the range of a float: k-CNF on (n,k) from (54,27) to (1200,1200) including k = 1000, 1023, 1024, 1025, 1100, 1199 (Hypothesis: n in {54..1200}, any k in n/2..n), k-XOR on n up to 1200 with k <= 11, m in {0,1,2,5}, 0..2 planted assignments; k-XOR with wide k only at m = 0. "
                   "oracle: the maximum is a closed form in Python integers (math.comb and shifts; two planted assignments by inclusion-exclusion), compared with the count per class of variables / brute force of vlib/randref wherever that is cheap; ValueError exactly when m > max; otherwise n variables, m pairwise distinct clauses (parities, decoded from the sign-pattern blocks) on k distinct variables of 1..n, each satisfied by every planted assignment (evaluated by the harness). non-trivial (b),(c): k<=n and m>=1, or a maximum beyond the float range",
              required_labels=['cnf', 'xor', 'm=max', 'm=max+1-rejected', 'planted>=2', 'one-shot-iterable',
